@@ -4,6 +4,8 @@ from . import textgen
 SCRUB = "! Sensitive line SCRUBBED by netconan"
 AWS = [t for t, s in textgen._T["aws_lines"]]
 SINGLE = [(t, s) for t, s in textgen.TEMPLATES if t.count("{}") == 1 and "{0}" not in t and t not in AWS]       # AWS keys are fixed 32-character fields
+# line forms the template corpus does not have: type / level fields of more than one digit
+SINGLE += [("enable password 10 {}", "x"), ("password 15 {}", "x"), ("enable password level 15 10 {}", "x"), ("username admin password 12 {}", "x"), ("passwd 100 {}", "x")]
 ENCLOSE = [("", ""), ('"', '"'), ("'", "'"), ("[", "]"), ("{", "}"), ("", ";"), ("", ","), ('"', '";'), ("\\'", "\\'"), ('\\"', '\\"')]
 
 
